@@ -175,3 +175,163 @@ def _draw(c, tab, tname):
     return Call(tname, fn, shapes, dom=(0.35, 2.4), avoid=(1.0, 2.0), prep=prep, cplx=False, margin=0.06,
                 desc=[space, name, form, [list(s) for s in shapes]] + ints,
                 feats={"fn": (space + "." if space else "") + name, "form": form, "ints": ints})
+
+
+# ---------------------------------------------------------------------------------------------------------------------------
+# keyword sweep: every (function, keyword, value) that raw NumPy accepts on a probe - "rarely used keyword arguments" as a generated
+# dimension.  A rule that ignores a keyword NumPy honours (or honours it differently) is a wrong derivative; raising is allowed.
+def _kw_values():
+    m23 = onp.array([[True, False, True], [False, True, True]])
+    return {
+        "axis": [0, -1, 1, (0, 1), (-1, 0), None],
+        "keepdims": [True],
+        "ddof": [1],
+        "initial": [0.5],
+        "k": [1, -1, 2],
+        "offset": [1, -1],
+        "axis1": [1, -1],
+        "axis2": [0, -2],
+        "axes": [(1, 0), (-1, -2)],
+        "order": ["F", "A", "K", "C"],
+        "UPLO": ["L", "U", "l", "u"],
+        "ord": [1, 2, 3, onp.inf, -onp.inf, "fro", "nuc", 0.5],
+        "n": [3, 4, 6],
+        "s": [(2, 4), (3, 2)],
+        "norm": ["ortho", "forward", "backward"],
+        "endpoint": [False],
+        "num": [4],
+        "prepend": [0.5],
+        "append": [0.25],
+        "edge_order": [2],
+        "rowvar": [False],
+        "bias": [True],
+        "nan": [0.5],
+        "posinf": [7.0],
+        "neginf": [-7.0],
+        "copy": [True, False],
+        "ndmin": [2, 3],
+        "shift": [1, -2],
+        "repeats": [2],
+        "reps": [2, (2, 1)],
+        "indices_or_sections": [1],
+        "min": [0.6],
+        "max": [1.4],
+        "a_min": [0.6],
+        "a_max": [1.4],
+        "mode": ["constant", "edge", "reflect", "wrap", "full", "valid", "same"],
+        "pad_width": [1, (1, 2)],
+        "constant_values": [0.5],
+        "weights": ["ones_like_x"],
+        "where": [m23],
+        "hermitian": [True],
+        "rcond": [1e-3],
+        "full_matrices": [False, True],
+        "compute_uv": [False],
+        "source": [0],
+        "destination": [-1],
+        "start": [1],
+        "newshape": [(-1,)],
+        "shape": [(-1,), (3, 2)],
+        "fill_value": [0.5],
+        "sorter": [],
+        "kind": ["stable"],
+        "kth": [1],
+        "x1": [], "x2": [],
+        "total_repeat_length": [],
+        "correction": [1],
+        "mean": [],
+        "subok": [True],
+        "like": [],
+    }
+
+
+# keywords with `where`-like semantics are only meaningful for reductions (for a ufunc, where= leaves unselected outputs uninitialised)
+_WHERE_OK = {"sum", "prod", "mean", "var", "std", "max", "min", "amax", "amin", "nansum", "nanprod", "nanmean", "nanvar", "nanstd", "nanmax", "nanmin"}
+_KW_TABLE = []
+
+
+def _kw_apply(mod, name, x, kws):
+    f = getattr(mod, name)
+    kws = {k: (onp.ones_like(onp.asarray(getattr(x, "_value", x), dtype=float)) if isinstance(v, str) and v == "ones_like_x" else v) for k, v in kws.items()}
+    y = f(x, **kws)
+    v = y
+    while hasattr(v, "_value"):
+        v = v._value
+    if isinstance(v, (tuple, list)):
+        y = y[0]
+    return y
+
+
+def kw_table():
+    """[(space, name, kw, value index, probe shape kind)] accepted by raw NumPy (deterministic)."""
+    if _KW_TABLE:
+        return _KW_TABLE
+    import warnings
+
+    KW = _kw_values()
+    rs = onp.random.RandomState(11)
+    probes = {"m23": rs.uniform(0.4, 0.9, (2, 3)), "sq": rs.uniform(0.4, 0.9, (3, 3)) + 2.0 * onp.eye(3), "v4": rs.uniform(0.4, 0.9, (4,))}
+    for p_ in probes.values():
+        p_.flags.writeable = False
+    for space, np_mod, ag_mod in _spaces():
+        for name in sorted(dir(ag_mod)):
+            if name.startswith("_") or name in SKIP or name in ("around", "round"):
+                continue
+            f = getattr(ag_mod, name, None)
+            g = getattr(np_mod, name, None)
+            if g is None or not callable(f) or isinstance(f, type) or isinstance(g, type):
+                continue
+            for kw in sorted(KW):
+                if kw == "where" and name not in _WHERE_OK:
+                    continue
+                for vi, val in enumerate(KW[kw]):
+                    for pk in ("m23", "sq", "v4"):
+                        if kw == "where" and pk != "m23":
+                            continue
+                        try:
+                            with warnings.catch_warnings():
+                                warnings.simplefilter("ignore")
+                                y = onp.asarray(_kw_apply(np_mod, name, probes[pk], {kw: val}))
+                        except Exception:
+                            continue
+                        if y.dtype.kind in "fc" and y.size > 0 and onp.all(onp.isfinite(y)):
+                            _KW_TABLE.append((space, name, kw, vi, pk))
+                            break
+    return _KW_TABLE
+
+
+@template("x:sweep_kw", "sweep", weight=20)
+def _t_sweep_kw(c):
+    tab = kw_table()
+    space, name, kw, vi, pk = tab[c.int(0, len(tab) - 1)]
+    KW = _kw_values()
+    kws = {kw: KW[kw][vi]}
+    # sometimes a second keyword of the same function (axis with keepdims / ddof / where ..., offset with axis1 ...)
+    if c.chance(1, 3):
+        mates = [e for e in tab if e[0] == space and e[1] == name and e[2] != kw and e[4] == pk]
+        if mates:
+            m_ = mates[c.int(0, len(mates) - 1)]
+            kws[m_[2]] = KW[m_[2]][m_[3]]
+    if pk == "m23":
+        shape = (2, 3)
+    elif pk == "sq":
+        shape = (3, 3) if c.bool() else (2, 3, 3)
+    else:
+        shape = (4,)
+    if pk == "m23" and "where" not in kws and c.chance(1, 3):
+        shape = (2, 3, 2) if c.bool() else (3,)
+    which = {"": 0, "linalg": 1, "fft": 2}[space]
+
+    def fn(ns, x):
+        import warnings
+
+        mod = ns._mod if which == 0 else getattr(ns._mod, space)
+        with warnings.catch_warnings():
+            warnings.simplefilter("ignore", DeprecationWarning)
+            return _kw_apply(mod, name, x, kws)
+
+    prep = (lambda xs: [xs[0] * 0.4 + 1.5 * onp.eye(xs[0].shape[-1])]) if pk == "sq" else None
+    kdesc = {k: (v.tolist() if isinstance(v, onp.ndarray) else (list(v) if isinstance(v, tuple) else (repr(v) if isinstance(v, float) and not onp.isfinite(v) else v)))
+             for k, v in kws.items()}
+    return Call("x:sweep_kw", fn, [shape], dom=(0.35, 2.4), avoid=(1.0, 2.0, 0.6, 1.4, 0.5, 0.25), prep=prep, cplx=False, margin=0.06,
+                desc=[space, name, kdesc, list(shape)], feats={"fn": (space + "." if space else "") + name, "kw": sorted(kws), "kwargs": kdesc})
